@@ -280,8 +280,15 @@ func ReachingStores(load *ssa.UnOp) (stores []*ssa.Store, zero bool, ok bool) {
 	if load.Op != token.MUL {
 		return nil, false, false
 	}
-	a, isAlloc := load.X.(*ssa.Alloc)
-	if !isAlloc {
+	var a ssa.Value
+	switch x := load.X.(type) {
+	case *ssa.Alloc:
+		a = x
+	case *ssa.FreeVar:
+		// a captured variable: stores inside this literal are visible; a path without a
+		// store carries the unknown outer value (reported as zero)
+		a = x
+	default:
 		return nil, false, false
 	}
 	seen := map[*ssa.Store]bool{}
@@ -296,7 +303,7 @@ func ReachingStores(load *ssa.UnOp) (stores []*ssa.Store, zero bool, ok bool) {
 				}
 				return
 			}
-			if b.Instrs[i] == ssa.Instruction(a) {
+			if ai, isInstr := a.(ssa.Instruction); isInstr && b.Instrs[i] == ai {
 				zero = true
 				return
 			}
@@ -712,12 +719,50 @@ func ResultEdges(c ssa.CallInstruction, idx int, val bool) []EdgeKey {
 func Returns(fn *ssa.Function) []*ssa.Return {
 	var out []*ssa.Return
 	for _, b := range fn.Blocks {
-		if len(b.Instrs) == 0 {
+		if len(b.Instrs) == 0 || b == fn.Recover {
+			// the recover block is only entered after a recovered panic
 			continue
 		}
 		if r, ok := b.Instrs[len(b.Instrs)-1].(*ssa.Return); ok {
 			out = append(out, r)
 		}
+	}
+	return out
+}
+
+// RetVal returns result i of a return, looking through the spill that go/ssa inserts in
+// functions with defers (`*res = v; rundefers; t = *res; return t`).
+func RetVal(r *ssa.Return, i int) ssa.Value {
+	if i < 0 || i >= len(r.Results) {
+		return nil
+	}
+	v := r.Results[i]
+	ld, ok := v.(*ssa.UnOp)
+	if !ok || ld.Op != token.MUL {
+		return v
+	}
+	a, ok := ld.X.(*ssa.Alloc)
+	if !ok || a.Heap {
+		// a captured (named) result may be changed by a deferred closure
+		return v
+	}
+	b := r.Block()
+	for j := IndexOf(ld) - 1; j >= 0; j-- {
+		if st, isSt := b.Instrs[j].(*ssa.Store); isSt && st.Addr == ssa.Value(a) {
+			return st.Val
+		}
+		if _, isRD := b.Instrs[j].(*ssa.RunDefers); isRD {
+			continue
+		}
+	}
+	return v
+}
+
+// RetVals returns all results of a return, un-spilled.
+func RetVals(r *ssa.Return) []ssa.Value {
+	out := make([]ssa.Value, len(r.Results))
+	for i := range r.Results {
+		out[i] = RetVal(r, i)
 	}
 	return out
 }
